@@ -671,7 +671,24 @@ def consumer_mutates(rec, mode):
 
 
 STREAM_KINDS = ('sim', 'bytesio', 'buffered', 'minimal', 'gzip', 'mmap',
-                'spooled')
+                'spooled', 'file', 'gzipfile')
+
+
+def _real_file(data, gz):
+    """A real file on disk (removed again as soon as it is open): the kind
+    of stream whose fileno() / fstat() mean something."""
+    import gzip
+    import os
+    import tempfile
+    fd, path = tempfile.mkstemp(prefix='verif_stream_')
+
+    try:
+        with os.fdopen(fd, 'wb') as fp:
+            fp.write(gzip.compress(data, 1) if gz else data)
+
+        return gzip.open(path, 'rb') if gz else open(path, 'rb')
+    finally:
+        os.unlink(path)
 
 
 class MinimalStream(object):
@@ -710,13 +727,17 @@ def open_stream(world, kind, data, actor, buf=None, cap=None,
         st.write(data)
         st.seek(len(pre))
         return st, None
+    elif kind in ('file', 'gzipfile') and len(data) <= 200000:
+        st = _real_file(data, kind == 'gzipfile')
+        st.seek(len(pre))
+        return st, None
     elif kind == 'spooled':
         import tempfile
         st = tempfile.SpooledTemporaryFile(max_size=1 << 40)
         st.write(data)
         st.seek(len(pre))
         return st, None
-    elif kind in ('gzip', 'mmap'):
+    elif kind in ('gzip', 'mmap', 'file', 'gzipfile'):
         kind = 'bytesio'
 
     if kind == 'bytesio':
